@@ -81,6 +81,9 @@ class SandboxCoverageTracer(SandboxBasicTracer):
         self.p.start()
         #coverage.python.get_python_source = _get_source_correctly
         self.coverage = coverage.Coverage()
+        # Coverage clears the trace function when it stops, instead of putting
+        # back whatever was installed before (e.g., a debugger)
+        self._old_trace = sys.gettrace()
         self.coverage.start()
 
     def __exit__(self, exc_type, exc_val, traceback):
@@ -89,6 +92,10 @@ class SandboxCoverageTracer(SandboxBasicTracer):
             return
         self.filename, self.code = self._outermost
         self.coverage.stop()
+        # Coverage's tracer is still attached to this very frame (it was entered
+        # while coverage was running) and would clear the trace function again
+        sys._getframe().f_trace = None
+        sys.settrace(self._old_trace)
         self.coverage.save()
         # Restore the get_python_source reader
         #coverage.python.get_python_source = self.original
